@@ -511,6 +511,9 @@ TreeSet_iand(BTree* self, PyObject* other)
     PyObject* v = NULL;
     PyObject* result = NULL;
     PyObject* tmp_list = NULL;
+    PyObject* kept = NULL;
+    PyObject* all = NULL;
+    Py_ssize_t i;
     int contained = 0;
 
     tmp_list = PyList_New(0);
@@ -558,14 +561,27 @@ TreeSet_iand(BTree* self, PyObject* other)
         }
     }
 
-    /* Replace our contents with the list of keys we built. */
-    v = BTree_clear(self);
-    if (v == NULL) {
+    /* Remove the keys we don't keep, one at a time:  if that fails half
+       way (a comparison raises, memory runs out), every key of the result
+       is still here.  Clearing and re-inserting the kept keys would lose
+       them. */
+    kept = PyObject_CallFunctionObjArgs((PyObject*)&SetType, tmp_list, NULL);
+    if (kept == NULL) {
         goto err;
     }
-    Py_DECREF(v);
-    if (_TreeSet_update(self, tmp_list) < 0) {
+    all = PySequence_List((PyObject*)self);
+    if (all == NULL) {
         goto err;
+    }
+    for (i = 0; i < PyList_GET_SIZE(all); i++) {
+        v = PyList_GET_ITEM(all, i); /* borrowed */
+        contained = bucket_contains(BUCKET(kept), v);
+        if (contained == -1) {
+            goto err;
+        }
+        if (contained == 0 && _BTree_set(self, v, NULL, 0, 1) < 0) {
+            goto err;
+        }
     }
 
     Py_INCREF(self);
@@ -574,6 +590,8 @@ TreeSet_iand(BTree* self, PyObject* other)
 err:
     Py_DECREF(iter);
     Py_DECREF(tmp_list);
+    Py_XDECREF(kept);
+    Py_XDECREF(all);
 
     return result;
 
